@@ -346,10 +346,83 @@ Definition c14_cfg_run (case obs : sx) : verdict :=
   | _ => BadCase
   end.
 
+(* ---- one rule shared by all processors of a pipeline ----------------------------------------------------------
+   Pipeline.newProc hands every processor the SAME *ActionPluginStaticInfo: the match conditions (value lists,
+   regexps) and the do_if tree of an action exist once and are read by all processor goroutines at once.
+   The documented selector is a function of (rule as configured, event); an evaluation READS the rule. The model
+   makes the rule an explicit state: a step returns the decision and the rule the evaluation leaves behind (the
+   same rule); any interleaving of the processors' evaluations is a sequence of such steps over the one rule. *)
+Fixpoint list_eqb {A : Type} (eq : A -> A -> bool) (a b : list A) : bool :=
+  match a, b with
+  | [], [] => true
+  | x :: r, y :: q => eq x y && list_eqb eq r q
+  | _, _ => false
+  end.
+
+Section Shared.
+  Variable re_match : bytes -> bytes -> bool.
+
+  Definition eval_step (mode : mmode) (invert : bool) (rule : list cond) (e : json) : bool * list cond :=
+    (is_match re_match mode invert rule e, rule).
+
+  Fixpoint shared_run (mode : mmode) (invert : bool) (rule : list cond) (es : list json) : list bool * list cond :=
+    match es with
+    | [] => ([], rule)
+    | e :: r =>
+        let (b, rule1) := eval_step mode invert rule e in
+        let (bs, rule2) := shared_run mode invert rule1 r in
+        (b :: bs, rule2)
+    end.
+
+  Definition cond_eqb (a b : cond) : bool :=
+    list_eqb bytes_eqb (c_field a) (c_field b) && list_eqb bytes_eqb (c_values a) (c_values b)
+    && match c_regexp a, c_regexp b with
+       | Some x, Some y => bytes_eqb x y
+       | None, None => true
+       | _, _ => false
+       end.
+
+  (* the property's predicate on what a run over a shared rule showed: the rule found afterwards is the configured
+     one (values in order, regexps), and every decision - in whatever order the evaluations were interleaved -
+     is the documented one for (configured rule, event) *)
+  Definition shared_ok (mode : mmode) (invert : bool) (rule : list cond) (es : list json)
+             (decisions : list bool) (rule_after : list cond) : bool :=
+    list_eqb cond_eqb rule rule_after
+    && list_eqb Bool.eqb decisions (map (match_spec re_match mode invert rule) es).
+End Shared.
+
+(* which = 5: K goroutines, each a processor of its own over ONE shared rule, evaluate the events of the case
+   (goroutine g starts at event g and walks round) n times in all, at once; then one goroutine sweeps every event.
+   case = (K n inner) with inner a which = 2 case
+   obs  = (mutated (d ...) (a ...)) | what which = 2 says for a refused rule / a panic
+     mutated: 0 = the rule read back after the run (conditions: field, values in order, regexp text; do_if tree
+              equal to a fresh construction) is the configured one, 1 = it is not
+     d: per event 0 | 1 = every evaluation of the concurrent phase decided so, 2 = the evaluations disagreed
+     a: per event the decision of the sequential sweep
+   Both rows are judged by the which = 2 sub-model against (rule as configured, event). *)
+Definition c14_shared_entry (case obs : sx) : verdict :=
+  match case with
+  | SL [SZ k; SZ n; inner] =>
+      if (k <? 1)%Z || (n <? 1)%Z then BadCase
+      else
+        match obs with
+        | SL [SZ mutated; SL d; SL a] =>
+            match c14_proc_run inner (SL d), c14_proc_run inner (SL a) with
+            | BadCase, _ | _, BadCase => BadCase
+            | Violates m, _ | _, Violates m => Violates (SL [SZ 0; m])
+            | v1, v2 =>
+                if negb (mutated =? 0)%Z then Violates (SL [SZ 0; SL d; SL a])
+                else match v1 with Agree => v2 | _ => v1 end
+            end
+        | _ => c14_proc_run inner obs
+        end
+  | _ => BadCase
+  end.
+
 (* entry point of the model runner: 0 one check (an event or an antispam datum), 1 checkers x events in
    sequence / an action chain, 2 processor.isMatch, 3 real pipeline + discard (configuration read by
    fd.SetupActions / extractConditions), 4 the match_fields map of a configuration: translation by
-   fd.extractConditions + decisions *)
+   fd.extractConditions + decisions, 5 one rule shared by K goroutines *)
 Definition c14_entry (which : Z) (case obs : sx) : verdict :=
   match which with
   | 0 => c14_check_run case obs
@@ -357,5 +430,6 @@ Definition c14_entry (which : Z) (case obs : sx) : verdict :=
   | 2 => c14_proc_run case obs
   | 3 => c14_proc_run_cfg case obs
   | 4 => c14_cfg_run case obs
+  | 5 => c14_shared_entry case obs
   | _ => BadCase
   end.
